@@ -115,6 +115,16 @@ def unlimbs(p) -> int:
 # TLC
 # --------------------------------------------------------------------------------------
 
+def die_with_parent():
+    """preexec_fn: the child is killed when this process dies (a harness killed by the kernel used to leave TLC running for hours)."""
+    try:
+        import ctypes
+        import signal as _signal
+        ctypes.CDLL("libc.so.6").prctl(1, _signal.SIGKILL)       # PR_SET_PDEATHSIG
+    except Exception:
+        pass
+
+
 class TLCResult:
     def __init__(self, rc, out, wall):
         self.rc = rc
@@ -197,7 +207,7 @@ def run_tlc(module: str, cfg: str | None = None, *, workers: int | str = NCPU, e
             e.update({k: str(v) for k, v in env.items()})
         t0 = time.time()
         try:
-            p = subprocess.run(cmd, cwd=str(cwd), env=e, capture_output=True, text=True, timeout=timeout)
+            p = subprocess.run(cmd, cwd=str(cwd), env=e, capture_output=True, text=True, timeout=timeout, preexec_fn=die_with_parent)
         except subprocess.TimeoutExpired as ex:
             subprocess.run(["pkill", "-f", str(meta)], capture_output=True)
             raise MachineryError(f"TLC timed out after {timeout}s on {module}") from ex
